@@ -146,7 +146,7 @@ def expected(kind, base_hist, t):
     'out' = the output of a buffer fed by it (same value once settled),
     'q' / 'qport' = output of a D register fed by it (previous cycle's value, 0 at power-up),
     'gq' = output of a D register fed by it whose own clock driver is enabled by it (last non-zero value, 0 before)."""
-    if kind in ('', 'in', 'out'):
+    if kind in ('', 'in', 'out', 'sn'):
         return base_hist[t]
     if kind in ('q', 'qport'):
         return base_hist[t - 1] if t > 0 else 0
